@@ -11,7 +11,6 @@ import (
 	"sort"
 	"strconv"
 	"strings"
-	"sync"
 
 	"github.com/ohler55/slip"
 	_ "github.com/ohler55/slip/pkg" // all functions
@@ -109,30 +108,33 @@ func ErrFromRecovered(rec any) *Err {
 
 // --------------------------------------------------------------- tracing
 
-var (
-	traceMu  sync.Mutex
-	traceLog []string
-)
+var traceLog []string
 
 // ResetTrace clears the trace log.
+//
+//go:norace
 func ResetTrace() {
-	traceMu.Lock()
+	traceLock()
 	traceLog = traceLog[:0]
-	traceMu.Unlock()
+	traceUnlock()
 }
 
 // Trace returns a copy of the trace log.
+//
+//go:norace
 func Trace() []string {
-	traceMu.Lock()
-	defer traceMu.Unlock()
+	traceLock()
+	defer traceUnlock()
 	return append([]string(nil), traceLog...)
 }
 
-// AddTrace appends directly (used by Go-side probes).
+// AddTrace appends directly (used by Go-side probes and by (tr k v)).
+//
+//go:norace
 func AddTrace(s string) {
-	traceMu.Lock()
+	traceLock()
 	traceLog = append(traceLog, s)
-	traceMu.Unlock()
+	traceUnlock()
 }
 
 type trFunc struct {
